@@ -32,9 +32,11 @@ Init == /\ method \in Methods /\ hasE \in BOOLEAN /\ zeroB \in BOOLEAN
         /\ pc = "start" /\ layout = "plain" /\ k = 0 /\ hit = <<>> /\ best = 0
         /\ converged = FALSE /\ warned = FALSE /\ ret = 0 /\ retLayout = "none"
 \* direct methods and the all-zero right-hand side return at once, in the caller's layout
+\* (broyden1 runs the quasi-Newton loop of RootLoop.tla and may end with its warning)
 Direct == /\ pc = "start" /\ (method \notin Iterative \/ zeroB)
-          /\ pc' = "done" /\ retLayout' = "plain" /\ ret' = 0 /\ converged' = TRUE
-          /\ UNCHANGED <<method, hasE, zeroB, layout, k, hit, best, warned>>
+          /\ pc' = "done" /\ retLayout' = "plain" /\ ret' = 0
+          /\ \E w \in BOOLEAN : (w => (method = "broyden1" /\ ~zeroB)) /\ warned' = w /\ converged' = ~w
+          /\ UNCHANGED <<method, hasE, zeroB, layout, k, hit, best>>
 Setup == /\ pc = "start" /\ method \in Iterative /\ ~zeroB
          /\ layout' = IF hasE THEN "swapped" ELSE "plain"
          /\ pc' = "loop"
